@@ -203,12 +203,22 @@ class Scenario:
         self.ref, self.frag_items = {}, {}
         gen = py4hw.VerilogGenerator(g.roots[0])
         s0 = L.snapshot(g)
+        altered = False
         for i, o in enumerate(g.objs):
             with L.quiet():
                 try:
                     self.ref[i] = ('ok', gen.getVerilog(o))
                 except Exception as e:
                     self.ref[i] = ('err', type(e).__name__)
+            if not altered:
+                s1 = L.snapshot(g)
+                if s0 != s1:
+                    altered = True
+                    df = L.snap_diff(s0, s1)
+                    self.fail(f'getVerilog of object {i} ({type(o).__name__} {o.getFullPath()}) altered the object graph: ' + '; '.join(df[:3]),
+                              self.rp(via='snapshot', stage='per-object getVerilog', diff=df[:6],
+                                      ops=[('newGen', 0)] + [('getVerilog', 0, j, 0, None) for j in range(i + 1)]))
+            with L.quiet():
                 if g.pred.isInlinable(o) and o.parent is not None:
                     R.clearWireNamesCache()
                     try:
@@ -216,10 +226,20 @@ class Scenario:
                     except Exception:
                         self.frag_items[i] = 1
         R.clearWireNamesCache()
-        s1 = L.snapshot(g)
-        if s0 != s1:
-            self.fail('getVerilog over every object of the design altered the object graph: ' + '; '.join(L.snap_diff(s0, s1)[:3]),
-                          self.rp(via='snapshot', stage='per-object getVerilog', diff=L.snap_diff(s0, s1)[:6]))
+        # second pass: the same request for every object again, after all the others have been generated
+        for i, o in enumerate(g.objs):
+            with L.quiet():
+                try:
+                    again = ('ok', py4hw.VerilogGenerator(o).getVerilog())
+                except Exception as e:
+                    again = ('err', type(e).__name__)
+            self.res.count(('l1-repeat', self.label, i))
+            if again != self.ref[i]:
+                self.fail(f'getVerilog of object {i} ({type(o).__name__} {o.getFullPath()}) repeated after one generation of every object of the design gives a different text',
+                          self.rp(via='repeat', stage='per-object getVerilog', first=str(self.ref[i][1])[-400:], again=str(again[1])[-400:],
+                                  ops=[('newGen', 0)] + [('getVerilog', 0, j, 0, None) for j in range(len(g.objs))] + [('newGen', i), ('getVerilog', 1, None, 0, None)]))
+                break
+        R.clearWireNamesCache()
         self.q('begin')
         self.q('op newGen 0')
         for i, o in enumerate(g.objs):
@@ -618,6 +638,12 @@ def values_of_root(g, d):
         for k, v in vars(o).items():
             if isinstance(v, (int, bool)) or (isinstance(v, list) and v and all(isinstance(x, int) for x in v)):
                 attrs.append((g.oid[id(o)], k, v if not isinstance(v, list) else list(v)))
+        # parameter dictionaries: name -> value | (index of the object the Parameter refers to, its name)
+        if hasattr(o, 'parameters'):
+            import py4hw
+            attrs.append((g.oid[id(o)], 'parameters',
+                          [(k, ('Param', g.oid.get(id(v.obj), '?'), v.name) if isinstance(v, py4hw.Parameter) else v)
+                           for k, v in o.parameters.items()]))
     return vals, attrs
 
 
